@@ -5,6 +5,7 @@
 import XotModel.Model.Parse
 import XotModel.Model.TokenShape
 import XotModel.Lemmas.ParseContentErr
+import XotModel.Lemmas.ParseQName
 
 namespace XotModel
 
@@ -281,12 +282,12 @@ theorem cdata_good {len : Nat} {b : Builder} (h : SpansIn len b) {t : StrSpan} (
     rw [h1]
     exact SpanMap.extendText_allIn h.1 _ (StrSpan.span_inBounds ht)
 
-theorem step_good {len : Nat} {b : Builder} (h : SpansIn len b) (t : Token) (ht : t.Inside len) :
-    StepGood len (b.step t) := by
+theorem stepCore_good {len : Nat} {b : Builder} (h : SpansIn len b) (t : Token) (ht : t.Inside len) :
+    StepGood len (b.stepCore t) := by
   cases t with
   | «attribute» p l v sp =>
     obtain ⟨hp, hl, hv, _⟩ := ht
-    simp only [Builder.step]
+    simp only [Builder.stepCore]
     split
     · exact prefix_good h _ hv (fromPrefixName_inBounds hp hl)
     · split
@@ -305,7 +306,7 @@ theorem step_good {len : Nat} {b : Builder} (h : SpansIn len b) (t : Token) (ht 
     | «open» => exact openElement_good h
     | close p l => exact closeElement_good h ht.1 ht.2.1 ht.2.2
     | empty =>
-      simp only [Builder.step]
+      simp only [Builder.stepCore]
       have ho := openElement_good h
       split
       · rename_i b1 h1
@@ -321,7 +322,7 @@ theorem step_good {len : Nat} {b : Builder} (h : SpansIn len b) (t : Token) (ht 
     exact SpanMap.add_allIn h.1 _ (StrSpan.span_inBounds ht.1)
   | pi target content sp =>
     obtain ⟨ht1, ht2, _⟩ := ht
-    simp only [Builder.step]
+    simp only [Builder.stepCore]
     split
     · exact StrSpan.span_inBounds ht1
     refine ⟨?_, h.2⟩
@@ -331,7 +332,7 @@ theorem step_good {len : Nat} {b : Builder} (h : SpansIn len b) (t : Token) (ht 
     | none => exact h1
     | some c => exact SpanMap.add_allIn h1 _ (StrSpan.span_inBounds (ht2 c rfl))
   | declaration v e s sp =>
-    simp only [Builder.step]
+    simp only [Builder.stepCore]
     split
     · exact StrSpan.span_inBounds ht.1
     · exact h
@@ -339,6 +340,31 @@ theorem step_good {len : Nat} {b : Builder} (h : SpansIn len b) (t : Token) (ht 
   | dtdEnd sp => exact StrSpan.span_inBounds ht
   | emptyDtd sp => exact StrSpan.span_inBounds ht
   | entityDecl sp => exact StrSpan.span_inBounds ht
+
+/-- The names `check_qname` looks at lie inside the source when the token does. -/
+theorem Token.qname_inside {len : Nat} {t : Token} {p l : StrSpan} (ht : t.Inside len)
+    (hq : t.qname = some (p, l)) : p.Inside len ∧ l.Inside len := by
+  cases t with
+  | elementEnd e sp =>
+    cases e <;> simp only [Token.qname, Option.some.injEq, Prod.mk.injEq, reduceCtorEq] at hq
+    obtain ⟨rfl, rfl⟩ := hq; exact ⟨ht.1, ht.2.1⟩
+  | «attribute» pfx loc value sp =>
+    simp only [Token.qname, Option.some.injEq, Prod.mk.injEq] at hq; obtain ⟨rfl, rfl⟩ := hq
+    exact ⟨ht.1, ht.2.1⟩
+  | elementStart pfx loc sp =>
+    simp only [Token.qname, Option.some.injEq, Prod.mk.injEq] at hq; obtain ⟨rfl, rfl⟩ := hq
+    exact ⟨ht.1, ht.2.1⟩
+  | _ => simp [Token.qname] at hq
+
+theorem step_good {len : Nat} {b : Builder} (h : SpansIn len b) (t : Token) (ht : t.Inside len) :
+    StepGood len (b.step t) := by
+  refine b.step_cases t (fun _ => stepCore_good h t ht) ?_
+  intro p l hq _
+  obtain ⟨hp, hl⟩ := Token.qname_inside ht hq
+  unfold StrSpan.Inside StrSpan.stop at hp
+  unfold StrSpan.Inside at hl
+  simp only [StepGood, ParseErr.span, Span.InBounds]
+  omega
 
 theorem run_good {len : Nat} (ts : List Token) (lexErr : Option Nat) (hlex : ∀ p, lexErr = some p → p ≤ len) :
     ∀ {b : Builder}, SpansIn len b → (∀ t ∈ ts, t.Inside len) → StepGood len (b.run ts lexErr) := by
